@@ -39,7 +39,7 @@ from vlib.runner import VERIF
 
 ID = "C20"
 LEVEL = "exploration"
-BUDGET = {"quick": 75, "thorough": 800}
+BUDGET = {"quick": 200, "thorough": 1200}
 REPO = os.environ.get("VERIF_REPO", "/repo")
 RULE = (
     "case = ('translate', text, format) or ('validate', [texts]). Non-trivial = "
@@ -340,7 +340,10 @@ def plain_texts(draw):
     global _CORPUS
     if _CORPUS is None:
         _CORPUS = corpus()
-    src = draw(st.sampled_from(["gen", "gen", "enc", "corpus", "damaged"]))
+    src = draw(st.sampled_from(["gen", "gen", "enc", "corpus", "damaged", "damaged",
+                                "dialects-disagree"]))
+    if src == "dialects-disagree":
+        return draw(st.sampled_from(DISCRIMINATING))
     if src == "gen":
         d = draw(st.sampled_from(["default", "PVL", "ODL", "PDS3", "ISIS"]))
         doc = draw(gt.documents(d, min_statements=1))
@@ -436,6 +439,20 @@ DRESSED = ["\ufeffa = b\nEND\n", "\ufeff/* c */\nGROUP = g\n x = 1\nEND_GROUP\nE
            "a = \ufeff\nEND\n", "\r\na = 1\r\nEND\r\n", "a = 1 # c\rb = 2\rEND\r"]
 
 
+# texts on which the dialects disagree (some rows of the report say 'loads', others
+# do not - in every combination that was found, the Omni row alone failing included)
+DISCRIMINATING = [
+    "Bands = 7# seven filters\nEnd\n", "k = 10#9# x\nEND\n", "k = -7#\nEND\n",
+    "a = 1\nEND+x\n", "a = \"caf\u00e9\"\nEND\n", "a = 1;\nEND;\n", "name_ = 1\nEND\n",
+    "a = 1 # comment\nEND\n", "t = 12:00:00+01:00\nEND\n", "a = 1e3\nb = 12:00:60\nEND\n",
+    "Group = g\n  a = 1\nEnd_Group\nEnd\n", "BEGIN_GROUP = g;\n a = 1;\nEND_GROUP = g;\nEND;\n",
+    "a = {1, (2, 3)}\nEND\n", "a = 16#-FF#\nEND\n", "a = -16#FF#\nEND\n", "a = 2#2#\nEND\n",
+    "a = 5 <m\ts>\nEND\n", "a = b-\nc = 1\nEND\n", "x = \"a\tb\"\nEND\n", "a = '\t'\nEND\n",
+    "a = 1\nb =\nEND\n", "^PTR = (\"F.IMG\", 5 <BYTES>)\nEND\n", "a = 2001-13-01\nEND\n",
+    "long_parameter_name_over_thirty_chars = 1\nEND\n", "a = \x0b1\nEND\n", "a = N/A\nEND\n",
+]
+
+
 def dressed_cases(acc):
     """Fixed files with a byte order mark, undecodable bytes, NULs, CR line ends: each
     translated to every format and validated alone and in company."""
@@ -443,6 +460,10 @@ def dressed_cases(acc):
     for t in DRESSED:
         todo += [("translate", t, f) for f in ("PDS3", "ODL", "ISIS", "PVL", "JSON")]
         todo += [("validate", [t]), ("validate", ["a = 1\nEND\n", t, "b = \n"])]
+    for i, t in enumerate(DISCRIMINATING):
+        todo += [("validate", [t]),
+                 ("validate", [DISCRIMINATING[i - 1], t, "a = 1\nEND\n"])]
+        todo += [("translate", t, f) for f in ("PDS3", "ISIS", "PVL")]
     try:
         for case in todo:
             if case[0] == "translate":
